@@ -13,8 +13,10 @@ CARRIER PER CLAUSE of the property statement:
 * ψ(x+1) = ψ(x) + 1/x: theorem for non-pole x < 6 in exact arithmetic (`digamma_recurrence`, `digammaFn_recurrence`:
   one unfolding of the definition); search for x ≥ 6 and for rounding.
 * B(a,b) = B(b,a): `beta_comm` (one rewrite, any commutative `*`, `+`) + bit-exact search.
-* erf odd: `erf_odd` for EVERY argument (both zeros) on any scalar type whose negation flips the sign bit (IEEE law; holds at
-  `Float`, impossible on a field) + exhaustive bit-exact search; over ordered fields `erf_odd_field` (x ≠ 0) and `erf_zero`.
+* erf odd: `erf_odd` AT every argument `x` (of any scalar type) where negation flips the sign bit — a per-argument IEEE law that
+  holds for every non-NaN double incl. both zeros, is NOT proved about `Float` but observed by the exhaustive bit-exact sweep, and
+  fails at NaN for the model's `Float` instance; over ordered fields `erf_odd_field` (x ≠ 0) and `erf_zero`; a lawful type with two
+  zeros: `SignMag.erf_odd_signMag`.
 * |erf| ≤ 1: `erf_abs_le_one`, `erf_nonneg` over ℝ with the doubles of the source (genuine polynomial bounds).
 
 Theorems about the model `Compute/Model/Special.lean` (the same definitions the compiled driver runs at `Float`,
@@ -27,7 +29,7 @@ tied bit for bit to `/repo/src/functions/gamma.rs` and `statistical.rs::erf` by 
   `digammaF_terminates`, `digammaF_mono`, `digammaF_unfold`, `digammaF_fuel_exact` (exactly ⌈6 - x⌉ unfoldings);
   the exported `digammaFn`: `digammaFn_spec` (it is the recursion's value for x ≥ -100003), `digammaFn_exhausted` (default
   below), `digammaFn_unfold`, `digammaFn_recurrence`;
-* any scalar type at all (so also `Float`): `beta_comm`, `gammaF_eq_gammaFn_of`, `erfF_eq_erfFn_of` (the sign-bit
+* any scalar type at all, under explicitly stated per-argument hypotheses (the form in which they apply to `Float`): `beta_comm`, `gammaF_eq_gammaFn_of`, `erfF_eq_erfFn_of` (the sign-bit
   recursion of `erf` returns `erfFn` everywhere), `erf_odd`, `digamma_diverges_of_fixed` (where `digamma` does not return);
 * over ℝ with the doubles of the source: `erf_zero`, `erf_abs_le_one`, `erf_nonneg`; `lanczosSum_pos`,
   `gammaPos_pos`, `lnGamma_eq_log_gamma`; `gammaPos_eq_legacy`, `lanczos_split_range_partial`,
@@ -292,16 +294,21 @@ theorem erfF_eq_erfFn_of (n : Nat) (x : α)
   | true => simp [erfF, erfFn, hs]
   | false => simp [erfF, erfFn, hs, h hs]
 
-/-- `erf` is odd at EVERY argument — both zeros included — for any scalar type whose negation flips the sign bit and is
-an involution.  These are laws of IEEE arithmetic (`-(+0.0) = -0.0`); they hold at `Float` (checked on every f32 of
-[-6, 6] and both zeros by the exhaustive sweep: 0 violations) and cannot hold on a field, where `-0 = 0`
-(there: `erf_odd_field`, `erf_zero`). -/
-theorem erf_odd (hflip : ∀ x : α, SignBit.isSignPositive (-x) = !SignBit.isSignPositive x)
-    (hneg : ∀ x : α, -(-x) = x) (x : α) : erfFn (-x) = -erfFn x := by
+/-- `erf` is odd AT `x` — for any scalar type and any argument `x` at which negation flips the sign bit and is undone by a
+second negation (hypotheses about `x` only, and about the one value `erfPos (-x)`).
+* IEEE doubles: the per-argument law `isSignPositive (-x) = !isSignPositive x` holds for every non-NaN `f64`, both zeros
+  included (`-(+0.0) = -0.0`); it is NOT proved about Lean's `Float` (its operations are opaque to the kernel) but observed:
+  the exhaustive sweep finds `erf(-x) = -erf(x)` bit for bit on every f32 of [-6, 6] and both zeros.  It FAILS at NaN for
+  the model's `Float` instance (`Float.toBits` canonicalises NaN, so `isSignPositive NaN = isSignPositive (-NaN) = true`);
+  there both sides are NaN anyway, and NaN tokens are not compared bit for bit.
+* It cannot hold at the zero of a field (`-0 = 0`): over ordered fields see `erf_odd_field` (x ≠ 0) and `erf_zero`.
+* Non-vacuity with two zeros: `SignMag.erf_odd_signMag` below. -/
+theorem erf_odd (x : α) (hflip : SignBit.isSignPositive (-x) = !SignBit.isSignPositive x)
+    (hnegx : -(-x) = x) (hnegv : -(-(erfPos (-x))) = erfPos (-x)) : erfFn (-x) = -erfFn x := by
   unfold erfFn
   cases hs : SignBit.isSignPositive x with
-  | true => simp [hflip x, hs, hneg]
-  | false => simp [hflip x, hs, hneg]
+  | true => simp [hflip, hs, hnegx]
+  | false => simp [hflip, hs, hnegv]
 
 end erfgen
 
@@ -636,5 +643,47 @@ theorem gammaFn_pole_junk : gammaFn (0 : ℝ) = 0 := by
   rw [this, zero_mul, div_zero]
 
 end real
+
+/-! ### Non-vacuity of `erf_odd` on a type with TWO zeros: sign-magnitude reals -/
+namespace SignMag
+open scoped Cv.C09
+
+/-- A sign flag and a magnitude: `(false, 0)` is `+0`, `(true, 0)` is `-0` (two distinct zeros, as in IEEE). -/
+abbrev SM := Bool × ℝ
+
+noncomputable def toR (a : SM) : ℝ := if a.1 then -a.2 else a.2
+noncomputable def ofR (r : ℝ) : SM := (decide (r < 0), |r|)
+
+noncomputable scoped instance : Add SM := ⟨fun a b => ofR (toR a + toR b)⟩
+noncomputable scoped instance : Sub SM := ⟨fun a b => ofR (toR a - toR b)⟩
+noncomputable scoped instance : Mul SM := ⟨fun a b => (xor a.1 b.1, a.2 * b.2)⟩
+noncomputable scoped instance : Div SM := ⟨fun a b => (xor a.1 b.1, a.2 / b.2)⟩
+/-- negation flips the sign flag only: `-(+0) = -0 ≠ +0`. -/
+scoped instance : Neg SM := ⟨fun a => (!a.1, a.2)⟩
+noncomputable scoped instance : One SM := ⟨(false, 1)⟩
+noncomputable scoped instance : OfLit SM := ⟨fun l => ofR (ofLit l)⟩
+scoped instance : SignBit SM := ⟨fun a => !a.1⟩
+noncomputable scoped instance : Transc SM where
+  sqrt a := ofR (Real.sqrt (toR a))
+  exp a := ofR (Real.exp (toR a))
+  ln a := ofR (Real.log (toR a))
+  pow a b := ofR (toR a ^ toR b)
+  sin a := ofR (Real.sin (toR a))
+  cos a := ofR (Real.cos (toR a))
+  tan a := ofR (Real.tan (toR a))
+  abs a := (false, a.2)
+  floor a := ofR (⌊toR a⌋ : ℝ)
+  ceil a := ofR (⌈toR a⌉ : ℝ)
+
+/-- On sign-magnitude reals both laws hold at every argument, so `erf` is odd everywhere — in particular at the two
+zeros, which are different elements. -/
+theorem erf_odd_signMag (x : SM) : erfFn (-x) = -erfFn x :=
+  erf_odd x (by cases x; simp [SignBit.isSignPositive, Neg.neg])
+    (by cases x; simp [Neg.neg]) (by generalize erfPos (-x) = v; cases v; simp [Neg.neg])
+
+example : ((false, 0) : SM) ≠ -((false, 0) : SM) := by simp [Neg.neg]
+example : erfFn (-((false, 0) : SM)) = -erfFn ((false, 0) : SM) := erf_odd_signMag _
+
+end SignMag
 
 end Cv.C09
